@@ -406,6 +406,52 @@ fn enumerate(_tier: Tier, idx: u32, of: u32, cx: &mut Cx) -> CaseResult {
         cx.add_evals(1);
         cx.inner_nontrivial += 1;
     }
+    // ... 4200 sibling directories, each with content, all excluded by one pattern: in the
+    // index all of them come before any of their contents
+    {
+        crate::engine::heartbeat();
+        let m = crate::probes::plain_meta();
+        let mut t = Tree::empty_root(tree::Meta { mode: 0o755, ..m });
+        for d in ["/spool", "/keep"] {
+            t.0.insert(d.to_string(), tree::Node { kind: tree::Kind::Dir, meta: tree::Meta { mode: 0o755, ..m } });
+        }
+        t.0.insert("/keep/f".into(), tree::Node { kind: tree::Kind::File { pool: 3, len: 9 }, meta: m });
+        for i in 0..4200u32 {
+            t.0.insert(format!("/spool/job{i:05}"), tree::Node { kind: tree::Kind::Dir, meta: tree::Meta { mode: 0o755, ..m } });
+            t.0.insert(format!("/spool/job{i:05}/payload"), tree::Node { kind: tree::Kind::File { pool: 2 + (i % 6) as u8, len: 5 + i % 7 }, meta: m });
+        }
+        t.0.insert("/spool/other".into(), tree::Node { kind: tree::Kind::File { pool: 4, len: 11 }, meta: m });
+        let sub = cx.dir("many-excluded-siblings");
+        std::fs::create_dir_all(&sub).unwrap();
+        let mut cx2 = crate::engine::sub_cx(cx, sub.clone());
+        let case = Case { opts: Opts::defaults(), tree: t, patterns: vec!["/spool/job*".to_string()], basis_patterns: None, via_file: false };
+        run(&case, &mut cx2).map_err(|mut f| {
+            f.signature = format!("{}/probe-many-excluded-siblings", f.signature);
+            f
+        })?;
+        crate::engine::force_remove(&sub);
+        cx.add_evals(1);
+        cx.inner_nontrivial += 1;
+    }
+    // ... and pattern files of more than a megabyte each: 30 000 long patterns that match
+    // nothing, the ones that matter at the very end
+    {
+        crate::engine::heartbeat();
+        let mut patterns: Vec<String> = (0..30_000).map(|i| format!("/nowhere/{}/{i:05}", "x".repeat(110))).collect();
+        patterns.extend(["/w0/f0001*", "*7", "/w1"].iter().map(|s| s.to_string()));
+        let sub = cx.dir("long-pattern-files");
+        std::fs::create_dir_all(&sub).unwrap();
+        let mut cx2 = crate::engine::sub_cx(cx, sub.clone());
+        let case = Case { opts: Opts::defaults(), tree: tree::wide_tree(300, 3, 1, crate::probes::plain_meta()), patterns, basis_patterns: None, via_file: true };
+        run(&case, &mut cx2).map_err(|mut f| {
+            f.signature = format!("{}/probe-long-pattern-files", f.signature);
+            f.message = f.message.chars().take(600).collect();
+            f
+        })?;
+        crate::engine::force_remove(&sub);
+        cx.add_evals(1);
+        cx.inner_nontrivial += 1;
+    }
     Ok(())
 }
 
